@@ -27,7 +27,7 @@ RULE = (
     "other compiles; non-trivial = pattern with >= 1 field spec; distinct = distinct (pattern text, node fingerprint)"
 )
 ASSUMPTIONS = ["sequence patterns applied to str-valued fields and field names that are properties/methods are not generated (don't-care)"]
-MUST_SEE = ["nodes_with_non_field_attributes", "empty_sequence_spec", "pattern_after_class_redefinition", "empty_rule_selection", "regex_inner_whitespace", "rules_given_as_iter", "rules_given_as_gen", "regex_on_hash_equal_values", 
+MUST_SEE = ["variable_refers_to_captured_sequence", "nodes_with_non_field_attributes", "empty_sequence_spec", "pattern_after_class_redefinition", "empty_rule_selection", "regex_inner_whitespace", "rules_given_as_iter", "rules_given_as_gen", "regex_on_hash_equal_values", 
     "tail_vs_too_short", "capture_on_seq_with_tail", "two_any_captures", "var_node_other_origin", "second_alternative_subclass",
     "matches", "mismatches", "reasked", "multi_questions", "regex_middle_only", "tail_capture", "empty_seq_vs_nonempty", "reasked_after_rejected",
 ]
@@ -160,6 +160,25 @@ def run_shard(ctx):
                 ctx.fp((text, fpn.get(id(node), "")))
             return (exp_ok, exp_caps)
 
+        if case % 4 == 0:
+            # a variable that refers to a captured sequence (a whole tuple-valued field, or the rest of one): compared with ==,
+            # and tuples of content-equal nodes whose origins differ are not ==
+            Leaf, Call = U.cls[f"{P}Leaf"], U.cls[f"{P}Call"]
+            o1, o2 = O.build_origin(("code", 0, 1, 3)), O.build_origin(("gen", 1))
+            mk = lambda o: (Leaf(v=case, s="p", origin=o), Leaf(v=case + 1, s="q", origin=o))  # noqa: E731
+            same = Call(args=mk(o1), kwargs=mk(o1))
+            other_origins = Call(args=mk(o1), kwargs=mk(o2))
+            shorter = Call(args=mk(o1), kwargs=mk(o1)[:1])
+            for nd in (same, other_origins, shorter):
+                for t in (
+                    ("tree", [f"{P}Call"], [("args", None, "s"), ("kwargs", ("var", "s"), None)]),
+                    ("tree", [f"{P}Call"], [("args", ("seq", [], ("tail", "all")), None), ("kwargs", ("var", "all"), "k")]),
+                    ("tree", [f"{P}Call"], [("kwargs", ("seq", [(("tree", "*", []), "h")], ("tail", "rest")), None), ("args", ("var", "rest"), None)]),
+                ):
+                    ctx.count("variable_refers_to_captured_sequence")
+                    ask(t, RP.render(t), nd, "directed-sequence-variable")
+            for nd in (same, other_origins, shorter):
+                nd.detach()
         pats = []
         for node in nodes if len(nodes) <= 12 else rng.sample(nodes, 12):
             for _ in range(ctx.params["patterns_per_node"]):
